@@ -198,8 +198,10 @@ impl Scope {
             } => {
                 if *calls_until_ext_bitfield == 0 {
                     if bits.with_read_position_at(*ext_bit_pos, |b| b.read_bit())? {
-                        let read_number_of_ext_fields =
-                            bits.read_normally_small_length()? as usize + 1;
+                        let read_number_of_ext_fields = (bits.read_normally_small_length()?
+                            as usize)
+                            .checked_add(1)
+                            .ok_or_else(|| Error::from(ErrorKind::ValueExceedsMaxInt))?;
                         if read_number_of_ext_fields > *number_of_ext_fields {
                             #[cfg(feature = "descriptive-deserialize-errors")]
                             descriptions.push(ScopeDescription::warning(
@@ -213,7 +215,7 @@ impl Scope {
                             //     )));
                         }
                         let range = bits.pos()..bits.pos() + *number_of_ext_fields;
-                        bits.set_pos(range.start + read_number_of_ext_fields); // skip bit-field
+                        bits.set_pos(range.start.saturating_add(read_number_of_ext_fields)); // skip bit-field
                         *self = Scope::AllBitField(range);
                     } else {
                         *self = Scope::ExtensibleSequenceEmpty(name);
